@@ -14,6 +14,10 @@ use std::sync::{Arc, Mutex};
 pub trait El: ndarray::LinalgScalar + PartialEq + std::fmt::Debug + Send + Sync {
     fn of(v: u64) -> Self;
     fn key(&self) -> u64;
+    /// -0.0 for floats (None for integers)
+    fn neg_zero() -> Option<Self> {
+        None
+    }
 }
 impl El for f64 {
     fn of(v: u64) -> Self {
@@ -22,6 +26,9 @@ impl El for f64 {
     fn key(&self) -> u64 {
         self.to_bits()
     }
+    fn neg_zero() -> Option<Self> {
+        Some(-0.0)
+    }
 }
 impl El for f32 {
     fn of(v: u64) -> Self {
@@ -29,6 +36,9 @@ impl El for f32 {
     }
     fn key(&self) -> u64 {
         self.to_bits() as u64
+    }
+    fn neg_zero() -> Option<Self> {
+        Some(-0.0)
     }
 }
 impl El for i32 {
@@ -93,6 +103,15 @@ impl<S: El> Conditional<S> for Recorder<S> {
 
 #[derive(Debug, Clone, Serialize, Deserialize)]
 pub struct Case {
+    /// start points of different lengths per chain (chains are stepped individually)
+    #[serde(default)]
+    pub ragged: bool,
+    /// some start coordinates are -0.0 (float state types)
+    #[serde(default)]
+    pub neg_zero: bool,
+    /// position in the schedule after which the sampler is re-seeded (via_sampler only)
+    #[serde(default)]
+    pub reseed_at: Option<usize>,
     /// 0 f64, 1 f32, 2 i32, 3 u8
     pub st: u8,
     pub dim: usize,
@@ -105,8 +124,11 @@ pub struct Case {
 
 fn strategy() -> BoxedStrategy<Case> {
     let dim = prop_oneof![1 => Just(1usize), 5 => 2usize..6, 3 => 6usize..20, 1 => 20usize..=64];
-    bx((0u8..4, dim, 1usize..=8, any::<u64>(), proptest::collection::vec(any::<u8>(), 1..10), any::<bool>()).prop_map(
-        |(st, dim, chains, init_seed, schedule, via_sampler)| Case {
+    bx((0u8..4, dim, 1usize..=8, any::<u64>(), proptest::collection::vec(any::<u8>(), 1..10), any::<bool>(), proptest::bool::weighted(0.2), proptest::bool::weighted(0.3), proptest::option::weighted(0.3, 0usize..9)).prop_map(
+        |(st, dim, chains, init_seed, schedule, via_sampler, ragged, neg_zero, reseed_at)| Case {
+            ragged,
+            neg_zero,
+            reseed_at,
             st,
             dim,
             chains,
@@ -117,8 +139,11 @@ fn strategy() -> BoxedStrategy<Case> {
     ))
 }
 
+fn same_keys<S: El>(a: &[S], b: &[S]) -> bool {
+    a.len() == b.len() && a.iter().zip(b).all(|(x, y)| x.key() == y.key())
+}
+
 fn generic<S: El>(c: &Case, cov: &mut Cov) -> CheckResult {
-    let d = c.dim;
     let registry: Arc<Mutex<Vec<(u64, Log<S>)>>> = Arc::new(Mutex::new(vec![]));
     let proto = Recorder::<S> {
         id: 0,
@@ -126,27 +151,75 @@ fn generic<S: El>(c: &Case, cov: &mut Cov) -> CheckResult {
         log: Arc::new(Mutex::new(vec![])),
         registry: registry.clone(),
     };
+    let dims: Vec<usize> = (0..c.chains).map(|ch| if c.ragged { 1 + (c.dim + ch * 3) % 9 } else { c.dim }).collect();
     let inits: Vec<Vec<S>> = (0..c.chains)
-        .map(|ch| (0..d).map(|i| S::of(mix(c.init_seed ^ ch as u64, i as u64))).collect())
+        .map(|ch| {
+            (0..dims[ch])
+                .map(|i| {
+                    let h = mix(c.init_seed ^ ch as u64, i as u64);
+                    match (c.neg_zero && h % 3 == 0, S::neg_zero()) {
+                        (true, Some(z)) => z,
+                        _ => S::of(h),
+                    }
+                })
+                .collect()
+        })
         .collect();
     // build either through the sampler (public `chains` field) or as stand-alone chains
-    let mut chains: Vec<GibbsMarkovChain<S, Recorder<S>>> = if c.via_sampler {
-        GibbsSampler::new(proto.clone(), inits.clone()).set_seed(c.init_seed % 1000).chains
+    let mut sampler: Option<GibbsSampler<S, Recorder<S>>> = None;
+    let mut alone: Vec<GibbsMarkovChain<S, Recorder<S>>> = vec![];
+    if c.via_sampler {
+        sampler = Some(GibbsSampler::new(proto.clone(), inits.clone()).set_seed(c.init_seed % 1000));
     } else {
-        inits.iter().map(|s| GibbsMarkovChain::new(proto.clone(), s)).collect()
-    };
-    ensure!(chains.len() == c.chains, "gibbs-chain-count", "{} chains built for {} initial states", chains.len(), c.chains);
+        alone = inits.iter().map(|s| GibbsMarkovChain::new(proto.clone(), s)).collect();
+    }
+    macro_rules! chains {
+        () => {
+            match sampler.as_mut() {
+                Some(s) => &mut s.chains,
+                None => &mut alone,
+            }
+        };
+    }
+    ensure!(chains!().len() == c.chains, "gibbs-chain-count", "{} chains built for {} initial states", chains!().len(), c.chains);
     let mut model: Vec<Vec<S>> = inits.clone();
     for (ch, m) in model.iter().enumerate() {
-        ensure!(chains[ch].current_state == *m, "gibbs-initial-state", "chain {ch} does not start at its initial state");
+        ensure!(
+            same_keys(&chains!()[ch].current_state, m),
+            "gibbs-initial-state",
+            "chain {ch} does not start at its initial state bit for bit: {:?} vs {:?}",
+            chains!()[ch].current_state,
+            m
+        );
     }
-    let seeds: Vec<u64> = chains.iter().map(|ch| ch.seed).collect();
+    let mut seeds: Vec<u64> = chains!().iter().map(|ch| ch.seed).collect();
     for (t, pick) in c.schedule.iter().enumerate() {
+        if c.reseed_at == Some(t) && sampler.is_some() {
+            // re-seeding must not replace a chain's conditional (its state is the user's) nor its state
+            let before: Vec<(u64, u64, Vec<S>)> = chains!().iter().map(|x| (x.target.id, x.target.calls, x.current_state.clone())).collect();
+            let s = sampler.take().unwrap();
+            sampler = Some(s.set_seed(c.init_seed % 77 + 5));
+            for (i, x) in chains!().iter().enumerate() {
+                ensure!(same_keys(&x.current_state, &before[i].2), "gibbs-reseed-changed-state", "set_seed changed the state of chain {i}");
+                ensure!(
+                    x.target.id == before[i].0 && x.target.calls == before[i].1,
+                    "gibbs-reseed-replaced-conditional",
+                    "after set_seed chain {i} no longer holds its own conditional (id {} with {} calls, now id {} with {} calls)",
+                    before[i].0,
+                    before[i].1,
+                    x.target.id,
+                    x.target.calls
+                );
+            }
+            seeds = chains!().iter().map(|ch| ch.seed).collect();
+            cov.class("re-seeded-mid-history");
+        }
         let ch = *pick as usize % c.chains;
-        let before_all: Vec<Vec<S>> = chains.iter().map(|x| x.current_state.clone()).collect();
-        let log_before = chains[ch].target.log.lock().unwrap().len();
-        let ret: Vec<S> = no_panic(|| chains[ch].step().clone()).map_err(|m| Fail::new("gibbs-panic", format!("step panicked: {m}")))?;
-        let log = chains[ch].target.log.lock().unwrap().clone();
+        let d = dims[ch];
+        let before_all: Vec<Vec<S>> = chains!().iter().map(|x| x.current_state.clone()).collect();
+        let log_before = chains!()[ch].target.log.lock().unwrap().len();
+        let ret: Vec<S> = no_panic(|| chains!()[ch].step().clone()).map_err(|m| Fail::new("gibbs-panic", format!("step panicked: {m}")))?;
+        let log = chains!()[ch].target.log.lock().unwrap().clone();
         let calls = &log[log_before..];
         ensure!(calls.len() == d, "gibbs-call-count", "step {t}: the conditional was asked {} times for a {d}-dimensional state", calls.len());
         let mut seen = vec![false; d];
@@ -155,8 +228,8 @@ fn generic<S: El>(c: &Case, cov: &mut Cov) -> CheckResult {
             ensure!(*idx < d, "gibbs-index-range", "step {t} call {k}: index {idx} out of range for dimension {d}");
             ensure!(!seen[*idx], "gibbs-coordinate-twice", "step {t}: coordinate {idx} refreshed twice in one sweep (call {k})");
             seen[*idx] = true;
-            if *given != cur {
-                let stale = *given == model[ch];
+            if !same_keys(given, &cur) {
+                let stale = same_keys(given, &model[ch]);
                 return Err(Fail::new(
                     if stale && k > 0 { "gibbs-stale-given" } else { "gibbs-wrong-given" },
                     format!(
@@ -168,13 +241,13 @@ fn generic<S: El>(c: &Case, cov: &mut Cov) -> CheckResult {
             cur[*idx] = *val;
         }
         ensure!(seen.iter().all(|s| *s), "gibbs-coordinate-missed", "step {t}: not every coordinate was refreshed: {:?}", seen);
-        ensure!(ret == cur, "gibbs-final-state", "step {t}: returned state {:?} differs from the start state with every coordinate replaced {:?}", ret, cur);
-        ensure!(chains[ch].current_state == cur, "gibbs-final-state", "step {t}: current_state differs from the returned state");
-        ensure!(chains[ch].current_state() == &cur, "gibbs-final-state", "step {t}: current_state() differs");
+        ensure!(same_keys(&ret, &cur), "gibbs-final-state", "step {t}: returned state {:?} differs from the start state with every coordinate replaced {:?}", ret, cur);
+        ensure!(same_keys(&chains!()[ch].current_state, &cur), "gibbs-final-state", "step {t}: current_state differs from the returned state");
+        ensure!(same_keys(chains!()[ch].current_state(), &cur), "gibbs-final-state", "step {t}: current_state() differs");
         model[ch] = cur;
-        for (o, st) in chains.iter().enumerate() {
+        for (o, st) in chains!().iter().enumerate() {
             if o != ch {
-                ensure!(st.current_state == before_all[o], "gibbs-other-chain-changed", "step {t} of chain {ch} changed chain {o}");
+                ensure!(same_keys(&st.current_state, &before_all[o]), "gibbs-other-chain-changed", "step {t} of chain {ch} changed chain {o}");
             }
             ensure!(st.seed == seeds[o], "gibbs-seed-changed", "step {t}: seed field of chain {o} changed");
         }
@@ -182,7 +255,10 @@ fn generic<S: El>(c: &Case, cov: &mut Cov) -> CheckResult {
     }
     cov.class(["f64", "f32", "i32", "u8"][c.st as usize % 4]);
     cov.class(if c.via_sampler { "via-sampler" } else { "stand-alone-chain" });
-    if d >= 2 {
+    if c.ragged {
+        cov.class("ragged-start-points");
+    }
+    if dims.iter().any(|d| *d >= 2) {
         cov.nontrivial_u64(fingerprint(c));
     }
     Ok(())
